@@ -311,8 +311,87 @@ def eval_model(ck, cases, shard=40):
     return out, okall
 
 
-def alt_builders(ck, binp):
-    """column-store / column-index / stream shard-key builders under the direct oracle only (no model)"""
+def acase(c, v):
+    """an alt case (other shard-key builders) as a Coq term; v = (v_or, v_and, v_reset) the tree was found to implement"""
+    groups = c["groups"] or []
+    cfg = ("{| c_mst := %s; c_tagkeys := %s; c_sk := []; c_typ := Hash; c_dur := 3600000000000%%Z; c_groups := %s; c_mstidx := None |}" % (
+        cstr(c["mstver"]), coq_list([cstr(k) for k in c["tagkeys"]]), coq_list([cgroup(g) for g in groups])))
+    m = "{| m_cfg := %s; m_vers := [(0%%N, %s)]; m_db := %s |}" % (
+        cfg, coq_list([cstr(k) for k in (c["sk"] or [])]), coq_list([cstr(k) for k in (c["dbsk"] or [])]))
+    b = {"colstore": "BField", "tagop": "BTagOp"}.get(c["kind"]) or "(BDim %s)" % coq_list([cstr(k) for k in (c["dims"] or [])])
+    pts = []
+    for p in c["points"]:
+        row = "{| x_tags := %s; x_fields := [(%s, %s); (%s, [])]; x_cols := %s |}" % (
+            ctags(p["tags"] or []), cstr("msg"), cstr(p["msg"]), cstr("usage"),
+            coq_list(["(%s, %d%%nat)" % (cstr(k), i) for k, i in (p["cols"] or [])]))
+        routed = "None" if p["err"] else "(Some (%d%%N, %d%%N))" % (p["gid"], p["sid"])
+        hsh = "None" if p["err"] or not p["hash"] else "(Some (%s, %s%%N))" % (cstr(p["hkey"]), p["hash"])
+        pts.append("{| ap_row := %s; ap_time := %s; ap_leaf := %s; ap_sat := %s; ap_routed := %s; ap_hash := %s |}" % (
+            row, coq_z(p["time"]), coq_list([coq_bool(x) for x in (p["leaf"] or [])]), coq_bool(p["sat"]), routed, hsh))
+    return ("{| ac_m := %s; ac_builder := %s; ac_cond := %s; ac_points := %s; ac_targets := %s; "
+            "ac_variant := {| v_or := %s; v_and := %s; v_reset := %s |} |}") % (
+        m, b, cexpr(c["cond"]), coq_list(pts),
+        coq_list(["(%d%%N, %s)" % (t["gid"], coq_list(["%d%%N" % x for x in t["sids"]])) for t in c["targets"] or []]),
+        coq_bool(v[0]), coq_bool(v[1]), coq_bool(v[2]))
+
+
+ALT_CODE_TXT = {1: "row evaluation", 2: "key builder result / shard the row was mapped to (build_key, route_in_x)",
+                3: "bytes hashed / HashID (hash_arg, xxh64)", 5: "shards consulted (target_group with the key in force)"}
+
+
+def eval_alt_model(ck, cases, v, shard=60):
+    """runs the builder models on the alt cases; {case index: codes}, fails closed (unreadable output / silent canary = broken)"""
+    head = ("From Coq Require Import ZArith NArith List Bool. From OG Require Import C11.Model C11.Corr.\n"
+            "Import ListNotations.\nDefinition cases : list acase := [\n%s\n].\n"
+            "Definition M := Eval vm_compute in amismatches cases.\nPrint M.\n")
+    files = [("c11alt%d" % (i // shard), head % ";\n".join(acase(c, v) for c in cases[i:i + shard])) for i in range(0, len(cases), shard)]
+    NCAN = 20
+    canary = False
+    for c in cases:
+        k = next((k for k, p in enumerate(c["points"]) if not p["err"]), None)
+        if k is not None:
+            bad = dict(c, points=[dict(p, sid=987654321) if j == k else p for j, p in enumerate(c["points"])])
+            files.append(("c11altcanary", head % ";\n".join([acase(bad, v)] * NCAN)))
+            canary = True
+            break
+    res = ck.coq_eval_many(files, timeout=1200)
+
+    def tuples(rc, o):
+        m = re.search(r"M\s*=\s*(.*?)\s*:\s*list", o, re.S)
+        if rc != 0 or not m:
+            return None
+        body = re.sub(r"%\w+", "", re.sub(r"\s+", "", m.group(1)))
+        found = re.findall(r"\((\d+),\[([\d;]*)\]\)", body)
+        if len(found) != body.count("("):
+            return None
+        return {int(a): [int(x) for x in codes.split(";") if x] for a, codes in found}
+
+    ok = True
+    if canary:
+        rc, o = res.pop()
+        got = tuples(rc, o)
+        if got is None or any(2 not in got.get(i, []) for i in range(NCAN)):
+            ck.broken.append("C11 alt canary: a corrupted case (row recorded in a shard that does not exist) was not reported by the "
+                             "builder model evaluation; read back: %s" % (o[-300:] if got is None else sorted(got.items())[:NCAN]))
+            ok = False
+    elif cases:
+        ck.broken.append("C11 alt canary: no alt case with a routed row to build the corrupted case from")
+        ok = False
+    out = {}
+    for idx, (rc, o) in enumerate(res):
+        got = tuples(rc, o)
+        if got is None:
+            ck.broken.append("builder model evaluation failed on shard %d: %s" % (idx, o[-500:]))
+            ok = False
+            continue
+        for a, codes in got.items():
+            out[idx * shard + a] = codes
+    return out, ok
+
+
+def alt_builders(ck, binp, variant=None, coq_ok=False):
+    """column-store / column-index / stream shard-key builders: direct oracle + the builder models (by_field, by_tagop,
+    by_dim_or_tag, route_in_x) evaluated on the same cases"""
     n = 500 if ck.tier == "quick" else 6000
     rc, out = ck.run([binp, "alt", str(n)], timeout=900)
     cases = []
@@ -336,6 +415,17 @@ def alt_builders(ck, binp):
                 ck.violation({"kind": "direct-oracle-alt", "what": "%s shard-key builder: %s" % (c["kind"], msg), "case": c})
     ck.cov["alt_builder_cases"] = kinds
     ck.cov["alt_builder_cases_pruned_with_matching_row"] = nontriv
+    if coq_ok and variant is not None:
+        mism, ok = eval_alt_model(ck, cases, variant)
+        ck.cov["alt_builder_cases_validated_against_model"] = len(cases) - len(mism) if ok else 0
+        if ok and mism:
+            i = min(mism)
+            ck.broken.append("correspondence C11 builders: model and implementation differ on alt case %d (%s): %s" % (
+                i, cases[i]["kind"], ", ".join(ALT_CODE_TXT.get(x, str(x)) for x in sorted(set(mism[i])))))
+            if not getattr(ck, "nofail_detail", None):
+                ck.nofail_detail = {"kind": "correspondence-alt", "case_index": i, "codes": mism[i], "case": cases[i]}
+    elif coq_ok:
+        ck.notes.append("alt builder cases not evaluated on the model: no model variant matches the tree")
 
 
 def setup():
@@ -459,7 +549,7 @@ def main(ck):
                               "add-only hooks coordinator/verif_export_c11.go, verif_export_c11b.go, verif_export_c11c.go, "
                               "lib/util/lifted/influx/meta/verif_export_c11.go"]
     ck.coq_audit(["C11"])
-    ok = ck.coq_build(["C11/Proofs.vo", "C11/ProofsRange.vo", "C11/Corr.vo"])
+    ok = ck.coq_build(["C11/Proofs.vo", "C11/ProofsRange.vo", "C11/ProofsBuilders.vo", "C11/Corr.vo"])
     if ok:
         ck.coq_props(["C11/Props.v", "C11/Refuted.v"])
     binp = ck.go_build("./cmd/c11", "c11")
@@ -632,7 +722,8 @@ def main(ck):
                       "least one alive shard AND at least one routed row of the queried measurement satisfies the query; distinct = "
                       "different (cfg, condition, queried measurement, rows)")
     if not getattr(ck, "replay", None):
-        alt_builders(ck, binp)
+        low = next((i for i in range(NV) if mask >> i & 1), None)
+        alt_builders(ck, binp, None if low is None else (bool(low & 4), bool(low & 2), bool(low & 1)), ok and evok)
         blackbox(ck)
     ck.cov["points_routed_and_satisfying"] = sat_routed
     ck.cov["input_histogram"] = hist
